@@ -355,7 +355,9 @@ pub fn run(tier: Tier) {
                             }
                             if call_is_budgeted(*c) && *c != Call::Run && !seq[..ci].iter().any(|x| matches!(x, Call::AuthorizeWithBigLimits | Call::QueryWithBigLimits)) && m.now_ns > max_time_ns {
                                 // one key for "time spent by a failed call is forgotten", one per call otherwise
-                                let k = if prev_fail.is_some() { "after-a-failed-call".to_string() } else { format!("{c:?}") };
+                                // the time a failed call consumed is never recorded: every later call of the sequence inherits that
+                                let failed_before = history[..history.len() - 1].iter().any(|h| !h.ends_with("->ok"));
+                                let k = if prev_fail.is_some() || failed_before { "after-a-failed-call".to_string() } else { format!("{c:?}") };
                                 ctx.violation_lazy(format!("C10/S1-time-over-budget/{k}"), detail);
                             }
                         }
